@@ -2,16 +2,18 @@
 from ..rules import sync as S
 
 EXPLANATION = (
-    "Static analysis of NECESSARY conditions only. Decides: the (kind, value, maxvalue) triple each primitive passes to "
-    "the C semaphore (Lock (SEMAPHORE,1,1), RLock (RECURSIVE_MUTEX,1,1), Semaphore(v) (SEMAPHORE,v,MAX), "
-    "BoundedSemaphore(v) (SEMAPHORE,v,v)), constants and argument order (R-SEM-TABLE); in Condition.wait: ownership "
-    "assertion first, sleeper announcement before the lock release, equal release/re-acquire counts, finally = woken "
-    "signal then re-acquire, return value = timed acquire (R-COND-PAIR); in notify/notify_all, with semaphore roles "
-    "derived from wait: #wake tokens = #sleepers grabbed = #woken signals awaited, one sleeper subtracted per timed-out "
-    "waiter, wait semaphore re-zeroed (R-COND-TOKENS); every access to the Event flag under its condition, set = flag:=1 "
-    "then notify_all, wait re-reads the flag after waiting (R-EVENT-LOCKED); get/setstate agreement for SemLock and "
-    "Condition (R-STATE-SYM); wait releases exactly the recursion level, as an evaluated term (R-COND-PAIR). NOT decided -- and not decidable in this family: that the three-semaphore protocol is "
-    "correct under every interleaving (a model-checking question)."
+    'Static analysis of NECESSARY conditions only. Decides: the (kind, value, maxvalue) triple each primitive passes '
+    'to the C semaphore (Lock (SEMAPHORE,1,1), RLock (RECURSIVE_MUTEX,1,1), Semaphore(v) (SEMAPHORE,v,MAX), '
+    'BoundedSemaphore(v) (SEMAPHORE,v,v)), constants and argument order (R-SEM-TABLE); in Condition.wait: ownership '
+    'assertion first, sleeper announcement before the lock release, equal release/re-acquire counts, finally = woken '
+    'signal then re-acquire, return value = timed acquire (R-COND-PAIR); in notify/notify_all, with semaphore roles '
+    'derived from wait: #wake tokens = #sleepers grabbed = #woken signals awaited, one sleeper subtracted per '
+    'timed-out waiter, wait semaphore re-zeroed (R-COND-TOKENS); every access to the Event flag under its condition, '
+    'set = flag:=1 then notify_all, wait re-reads the flag after waiting (R-EVENT-LOCKED); get/setstate agreement for '
+    'SemLock and Condition (R-STATE-SYM); wait releases exactly the recursion level, as an evaluated term '
+    '(R-COND-PAIR). Also decided: no token operation of the protocol sits inside an assert; the counting semaphores '
+    'start at 0 (R-COND-TOKENS, R-SEM-TABLE). NOT decided -- and not decidable in this family: that the '
+    'three-semaphore protocol is correct under every interleaving (a model-checking question).'
 )
 
 
